@@ -385,8 +385,27 @@ def c08_run(item: dict) -> dict:
                                            {nm: "e" for nm in info["macros"]}, False)
             steps += [{"op": "edit", "write": {edited: new_txt}},
                       {"op": "compile", "main": w.main, "lookup": w.lookup, "slot": erng.choice([0, 1]), "want_usage": True}]
+        # a second script in another directory, importing the same files, compiled on the same compiler object before the
+        # script under observation (attribution must be relative to the script being compiled, not to an earlier one)
+        if erng.random() < 0.5:
+            import posixpath as pp
+
+            first = list(w.files)[0]
+            alt = erng.choice(["/proj/SCRIPT/deep/er/alt.exps", "/proj/alt_top.exps", "/opt/elsewhere/x/alt.exps"])
+            imps = []
+            for st_, text, tgt in w.files[first]["imports"]:
+                if st_ == "rel":
+                    r_ = pp.relpath(tgt, pp.dirname(alt))
+                    imps.append(r_ if r_.startswith("..") else "./" + r_)
+                else:
+                    imps.append(text)
+            w.vfs.write(alt, macrolib.render_file(lib, w.files[first]["macros"], imps, w.variant_of, True))
+            steps.insert(0, {"op": "compile", "main": alt, "lookup": w.lookup, "slot": 0})
         outs = compile_steps(w.vfs.dump(), steps)
         res["configs"] += len(outs)
+        if steps[0]["main"] != w.main:
+            outs = outs[1:]
+            res["kinds"]["after-other-script-on-same-compiler"] = res["kinds"].get("after-other-script-on-same-compiler", 0) + 1
         o = outs[0]
         if "raised" in o:
             # whether the layout compiles at all is C05's business; here it only means nothing to judge
